@@ -21,6 +21,7 @@ import (
 	"context"
 	"database/sql"
 	"fmt"
+	"strings"
 	"sync"
 	"time"
 
@@ -71,6 +72,14 @@ func (c *TableMetaCache) Init(ctx context.Context, conn *sql.DB) error {
 func (c *TableMetaCache) GetTableMeta(ctx context.Context, dbName, tableName string) (*types.TableMeta, error) {
 	if tableName == "" {
 		return nil, fmt.Errorf("table name is empty")
+	}
+
+	// the statement may name the table together with its database: db.table, `db`.`table`
+	if i := strings.LastIndex(tableName, "."); i >= 0 {
+		if qualifier := strings.Trim(tableName[:i], "`"); qualifier != "" {
+			dbName = qualifier
+		}
+		tableName = tableName[i+1:]
 	}
 
 	instancesLock.RLock()
